@@ -332,6 +332,8 @@ def handleQ (st : St) (k : Nat) (q : String) (args : List String) : String :=
         (if a 0 ≤ 3 then optS (some (Spec.occsSmaller id (a 0) abs)) else "N")
     | "occs_smaller_unchecked" => both (.ofVal (RSQ.occsSmallerUnchecked dbg r (a 0))) s!"V:{Spec.occsSmaller id (a 0) abs}"
     | "iter" => collectIter (fun i => RSQ.get dbg r i) (abs.length + 2) ++ "|" ++ listS abs
+    | "prefetch_info" => both (.ofUnit (PFS.rsqPrefetchInfo B r (a 0))) "U"
+    | "prefetch_data" => both (.ofUnit (PFS.rsqPrefetchData B r (a 0))) "U"
     | _ => "bad-op"
   | .bv mu b abs =>
     let n := abs.length
@@ -356,6 +358,7 @@ def handleQ (st : St) (k : Nat) (q : String) (args : List String) : String :=
         (if i < 8 * ((n + 511) / 512) then s!"V:{Spec.ofBits ((abs.drop (64 * i)).take 64)}" else "F:assertdoc")
     | "iter" | "into_iter" => collectIter (fun i => (BV.get b i).map (·.map b2n)) (n + 2) ++ "|" ++ listS (abs.map b2n)
     | "n_lines" => both (.val (BV.nLines b)) s!"V:{(n + 511) / 512}"
+    | "prefetch_line" => both (.ofUnit (PFS.bvPrefetchLine b (a 0))) "U"
     | "iterlen" | "iterlen_ref" =>
       -- `len()` before the first and after each of `n + 2` calls of `next`
       let lens := (List.range (n + 3)).map (fun j => Out.ofVal (BV.BitIter.len b { i := min j n }))
@@ -397,6 +400,8 @@ def handleQ (st : St) (k : Nat) (q : String) (args : List String) : String :=
     | "n_ones" => both (.ofVal (RSW.nOnes r)) s!"V:{abs.count true}"
     | "n_zeros" => both (.val r.nZeros) s!"V:{abs.count false}"
     | "bv_len" => both (.val r.bv.nBits) s!"V:{n}"
+    | "prefetch_info" => both (.ofUnit (PFS.rswPrefetchInfo r (a 0))) "U"
+    | "prefetch_data" => both (.ofUnit (PFS.rswPrefetchData r (a 0))) "U"
     | _ => "bad-op"
   | .da s0 d abs =>
     let n := abs.length
@@ -607,6 +612,7 @@ def handleU (fn : String) (args : List String) : String :=
     let distinct := vals.eraseDups
     let rankOf (c : Nat) := (distinct.filter (· < c)).length
     listS (d :: r.toList) ++ "|" ++ listS (distinct.length :: vals.map rankOf)
+  | "prefetch_nta" => both (.ofUnit (PFS.prefetchReadNTA (a 0) (a 1))) "U"
   | "lens_ok" =>
     let D := a 0
     let (lens, _) := parseLens (args.drop 1)
